@@ -329,6 +329,23 @@ Proof.
   vm_compute in E. injection E as <-. repeat split; reflexivity.
 Qed.
 
+(* EXAMPLE (hypotheses satisfiable, new labels): four callers coalesce; one gives up on its own deadline;
+   the winner's context is cancelled inside PreStart: the winner gets the error, the two remaining
+   waiters start ONE new flight and share instance 0.  Then a publication failure after the tree
+   insertion: rolled back, reaped, counter back to the number of running actors. *)
+Definition example_cancel : list label :=
+  [LCall 0; LLookup 0; LCall 0; LCall 0; LCall 0; LAbandon 0; LCancel 0; LLookup 0; LCreate 0; LCount 0; LAdd 0 false;
+   LCall 1; LLookup 1; LCreate 1; LCount 1; LAddFail 1; LReap 1].
+Example example_cancel_ok : exists s, run_g init example_cancel = Some s /\ reach_g s /\
+  handed (s 0) = [(1, RPid 0); (1, RPid 0); (0, RErr)] /\ gaveup (s 0) = 1 /\ runs (s 0) = [0] /\
+  handed (s 1) = [(0, RErr)] /\ runs (s 1) = [] /\ node (s 1) = None /\
+  quiet (s 0) = true /\ quiet (s 1) = true /\ num_actors s [0; 1] = 1%Z.
+Proof.
+  destruct (run_g init example_cancel) as [s|] eqn:E; [|vm_compute in E; discriminate].
+  exists s. split; [reflexivity|]. split; [eapply run_g_reach; [constructor|exact E]|].
+  vm_compute in E. injection E as <-. repeat split; reflexivity.
+Qed.
+
 (* the SpawnChild flavour of the same race: the caller is handed its own new instance, which runs
    but is not in the tree and is not counted *)
 Definition spawn_child_once (n : nat) : list label := [LCall n; LLookup n; LCreate n; LCount n; LAdd n true].
